@@ -58,6 +58,14 @@ def main():
             lines = [ln.strip() for ln in out.splitlines() if ln.startswith("  ")]
             results[c] = {"caught": caught, "exit": rc, "first_violation": lines[:1], "seconds": round(time.time() - t0)}
             print("check %s quick: %s  %s" % (c, "CAUGHT" if caught else "missed (exit %d)" % rc, lines[:1]))
+            if not caught and os.environ.get("SEED_IMPORT_THOROUGH"):
+                t0 = time.time()
+                rc, out = run([PY, os.path.join(VERIF, "simx", "main.py"), c, "thorough"], VERIF, cenv, timeout=4 * 3600)
+                caught_t = rc == 1 and ("VIOLATION property=%s" % c) in out
+                lines = [ln.strip() for ln in out.splitlines() if ln.startswith("  ")]
+                results[c]["thorough"] = {"caught": caught_t, "exit": rc, "first_violation": lines[:1],
+                                          "seconds": round(time.time() - t0)}
+                print("check %s thorough: %s  %s" % (c, "CAUGHT" if caught_t else "missed (exit %d)" % rc, lines[:1]))
         meta["checks"] = results
         if ok:
             out_dir = os.path.join(VERIF, "seeded", sid)
